@@ -25,6 +25,8 @@ type Case struct {
 	Cuts  []int  `json:"cuts,omitempty"`  // packet boundaries inside the response body
 	Reads []int  `json:"reads,omitempty"` // offsets at which the TCP stream is split into read results
 	Prev  string `json:"prev,omitempty"`  // a complete earlier response on the same channel (delivered in one packet and drained first)
+	// ZeroTimeout: the connection's Info carries PacketReadTimeout 0 (an Info that was never given one)
+	ZeroTimeout bool `json:"zeroTimeout,omitempty"`
 }
 
 var h *hlib.H
@@ -40,7 +42,7 @@ func deliver(c Case) (rx.Obs, *vrt.Exec) {
 	if c.Prev != "" {
 		chunks = append(rx.OneChunk(rx.Packets(corpus[c.Prev].Bytes(), nil)), chunks...)
 	}
-	return rx.Deliver(vrt.Config{}, rx.Script{Chunks: chunks}, func(conn *tds.Conn, ch *tds.Channel, pipe *vrt.Pipe, o *rx.Obs) {
+	return rx.Deliver(vrt.Config{}, rx.Script{Chunks: chunks, ZeroTimeout: c.ZeroTimeout}, func(conn *tds.Conn, ch *tds.Channel, pipe *vrt.Pipe, o *rx.Obs) {
 		if c.Prev != "" {
 			rx.Drain(ch, 300)
 		}
@@ -317,6 +319,8 @@ func main() {
 				run(c)
 				h.Sample(func() interface{} { return c })
 				h.Section("1-read-splits", 1)
+				run(Case{Resp: r.Name, Cuts: cuts, Reads: []int{p}, ZeroTimeout: true})
+				h.Section("1-read-splits-zero-read-timeout", 1)
 				if total <= readTwoMax {
 					for q := p + 1; q < total; q++ {
 						run(Case{Resp: r.Name, Cuts: cuts, Reads: []int{p, q}})
